@@ -198,7 +198,7 @@ func (b *unboundBuilder) Parse(s string) (*Literal, error) {
 	if raw[0] != '"' {
 		return nil, fmt.Errorf("literal.Parse: text encoded literals must start with \", missing in %s", raw)
 	}
-	idx := strings.Index(raw, "\"^^type:")
+	idx := strings.LastIndex(raw, "\"^^type:")
 	if idx < 0 {
 		return nil, fmt.Errorf("literal.Parse: text encoded literals must have a type; missing in %s", raw)
 	}
